@@ -35,6 +35,13 @@ func main() {
 	if *replay != "" || *emit || *child {
 		nw = 1
 	}
+	drv.Deadline = 45 * time.Second
+	if *tier != "quick" {
+		drv.Deadline = 10 * time.Minute
+	}
+	if *replay != "" {
+		drv.Deadline = 0
+	}
 	pool, err := drv.NewPool(*root+"/driver/driver", nw, flags)
 	if err != nil {
 		fmt.Fprintln(os.Stderr, "driver:", err)
